@@ -229,23 +229,22 @@ func c18Alphabet(s c18Shape, batches []int) []c18Op {
 	// one run whose sink fails at its first / second call (batch size 1: one entity per call)
 	ops = append(ops, c18Op{K: "runfail", N: 1, F: 1}, c18Op{K: "runfail", N: 1, F: 2})
 	// one run during which entity 1 of a declared dependency dataset is rewired to target 2 / changes a property
-	seen := map[string]bool{}
-	for _, d := range s.Deps {
-		if seen[d.DS] {
+	// (declared dependency datasets and the link datasets between them and the main dataset)
+	for _, ds := range s.datasets() {
+		if ds == "M" {
 			continue
 		}
-		seen[d.DS] = true
-		holds := s.holds(d.DS)
+		holds := s.holds(ds)
 		keep, rewire := map[string][]string{}, map[string][]string{}
 		for pr, t := range holds {
 			keep[pr] = []string{c18IDs(t)[0]}
 			rewire[pr] = []string{c18IDs(t)[1]}
 		}
-		id := c18IDs(d.DS)[0]
+		id := c18IDs(ds)[0]
 		if len(holds) > 0 {
-			ops = append(ops, c18Op{K: "runw", N: 1, F: 1, W: &c18Op{K: "w", DS: d.DS, ID: id, V: 1, Refs: rewire}})
+			ops = append(ops, c18Op{K: "runw", N: 1, F: 1, W: &c18Op{K: "w", DS: ds, ID: id, V: 1, Refs: rewire}})
 		}
-		ops = append(ops, c18Op{K: "runw", N: 1, F: 1, W: &c18Op{K: "w", DS: d.DS, ID: id, V: 2, Refs: keep}})
+		ops = append(ops, c18Op{K: "runw", N: 1, F: 1, W: &c18Op{K: "w", DS: ds, ID: id, V: 2, Refs: keep}})
 	}
 	return ops
 }
